@@ -712,9 +712,9 @@ impl Session {
                     "Unknown alert".to_string()
                 };
                 tracing::error!("[Session] Received Alert frame (fatal): {}", alert_msg);
-                // Close all streams
-                let mut streams = self.streams.write().await;
-                for (stream_id, stream) in streams.drain() {
+                // Close all streams (they keep the alert text as their close reason)
+                let streams = self.streams.read().await;
+                for (stream_id, stream) in streams.iter() {
                     let error = AnyTlsError::Protocol(format!(
                         "Session closed due to alert: {}",
                         alert_msg
@@ -723,9 +723,10 @@ impl Session {
                     tracing::debug!("[Session] Closed stream {} due to alert", stream_id);
                 }
                 drop(streams);
-                // Mark session as closed
-                self.is_closed
-                    .store(true, std::sync::atomic::Ordering::Relaxed);
+                // Tear the session down through the common path: it marks the session closed,
+                // wakes blocked readers and pending opens, stops the background tasks and
+                // shuts the transport down (a hand-rolled teardown here did none of that).
+                let _ = self.close().await;
                 return Err(AnyTlsError::Protocol(format!("Alert: {}", alert_msg)));
             }
             Command::HeartRequest => {
